@@ -361,7 +361,10 @@ impl Property for C18 {
                 return Verdict::fail(format!("c18|{}more-than-100", door), format!("query {:?}: {} entries", q, res.len()));
             }
             let key_of = |text: &str, rank: usize| -> (i64, usize, usize) {
-                let score = if q.is_empty() { 0 } else { matcher.fuzzy_match(text, q).unwrap_or(0) };
+                // (a matcher per text: SkimMatcherV2 carries state from one call to the next when
+                // the text is not ASCII)
+                let _ = &matcher;
+                let score = if q.is_empty() { 0 } else { SkimMatcherV2::default().fuzzy_match(text, q).unwrap_or(0) };
                 (score, text.len(), rank)
             };
             // documented order as a sort key (smaller = earlier)
@@ -412,3 +415,5 @@ impl Property for C18 {
         json!({"notes": case.notes.iter().map(|(k, t)| (k.clone(), t.chars().take(400).collect::<String>())).collect::<Vec<_>>(), "queries": case.queries})
     }
 }
+
+
